@@ -65,3 +65,9 @@ def fill(claim, NA):
         "Trusted: CrossHair+z3; NondetSet as the model of hash-seed dependence; SAMI tokenizer/bs4/cssutils behind factory hooks; counterexamples replayed on real documents under real PYTHONHASHSEED values.",
         "CrossHair symbolic execution + z3; set iteration order as solver-chosen permutation",
     )
+    claim(
+        "C14",
+        "Bounded symbolic execution of the SAMI writer's sync placement for 2-3 languages with arbitrary instants (every interleaving and coincidence of cue times across languages is a solver-explored path): syncs non-decreasing, every cue once, in the sync of its start and under its own language; DFXP div-to-language resolution with all xml:lang fallback patterns; language options of the WebVTT/DFXP/legacy writers; SAMI paragraph language lookup.",
+        "Trusted: CrossHair+z3; contract stub of bs4 (find/find_all/insert_before/insert_after semantics) and parser factory hooks; bounds 2+1 / 1+1+1 cues quick, 2+2 thorough.",
+        "CrossHair symbolic execution + z3 over order relations between instants",
+    )
